@@ -6,7 +6,7 @@ EXTENDS Audio, TraceIO
 VARIABLES l, st   \* cursor; st = [poisoned, held] (fragments handed out by the last Payload)
 
 Fresh == [poisoned |-> FALSE, held |-> <<>>]
-Inp(e) == Pat(e.len, e.salt)
+Inp(e) == IF e.fillv < 0 THEN Pat(e.len, e.salt) ELSE Fill(e.len, e.fillv)      \* constant-byte inputs (0x00, 0xFF, ...) besides the pattern
 
 PayloadReason(e) ==
   IF e.res # "ok" THEN "outcome_" \o e.res
